@@ -33,6 +33,7 @@ import (
 	netv1beta1 "k8s.io/api/networking/v1beta1"
 	metav1 "k8s.io/apimachinery/pkg/apis/meta/v1"
 	"k8s.io/apimachinery/pkg/labels"
+	"k8s.io/apimachinery/pkg/types"
 )
 
 type termKind int
@@ -163,6 +164,10 @@ func refSetMatches(set, l map[string]string) bool {
 // workload is a harness-side workload / service / ingress source object.
 type workload struct {
 	NS, Name string
+	// identity metadata the API server maintains: no filter may depend on it (two revisions of one
+	// object share the UID, and the generation only moves with spec changes some clients never make)
+	UID string
+	Gen int64
 	// services, replication controllers: Set selector (nil = none)
 	SetSel map[string]string
 	HasSet bool
@@ -350,7 +355,7 @@ func (t *term) anyKind(pred func(*term) bool) bool {
 // ---------------------------------------------------------------- build
 
 func buildWorkloadMeta(w workload) metav1.ObjectMeta {
-	return metav1.ObjectMeta{Namespace: w.NS, Name: w.Name}
+	return metav1.ObjectMeta{Namespace: w.NS, Name: w.Name, UID: types.UID(w.UID), Generation: w.Gen}
 }
 
 func (w workload) podTemplate() corev1.PodTemplateSpec {
@@ -757,10 +762,17 @@ func objectUniverse(namespaces, names []string, lms []map[string]string, typed b
 				}
 			}
 		}
-		for _, k := range []string{"Pod", "Service", ""} {
-			for _, ns := range namespaces[:2] {
-				for _, n := range names[:2] {
-					out = append(out, &corev1.Event{ObjectMeta: metav1.ObjectMeta{Namespace: ns, Name: "ev", ResourceVersion: "1"},
+		// events about namespaced objects, about cluster-scoped ones (no namespace: nodes) and with an
+		// empty name: an involved-object filter matches the reference field by field, an empty field is
+		// not a wildcard
+		for _, k := range []string{"Pod", "Service", "", "Node"} {
+			for _, ns := range append(append([]string(nil), namespaces[:2]...), "") {
+				for _, n := range append(append([]string(nil), names[:2]...), "") {
+					evns := ns
+					if evns == "" {
+						evns = "default"
+					}
+					out = append(out, &corev1.Event{ObjectMeta: metav1.ObjectMeta{Namespace: evns, Name: "ev", ResourceVersion: "1"},
 						InvolvedObject: corev1.ObjectReference{Kind: k, Namespace: ns, Name: n}})
 				}
 			}
